@@ -12,10 +12,12 @@ CFG = {
         "reproduces it (test_accepts_iff), and `--test` accepts what jrsonnet-fmt printed PROVIDED the layout is stable on "
         "that text (test_accepts_fixpoint, produce_then_test_accepts). NOT PROVED, only OBSERVED on generated inputs: "
         "that the layout engine (printers + dprint-core) has that fixed point, and that the rowan parser, tree builder "
-        "and printers never panic. The observation currently FAILS for the fixed point in three listed ways (known "
-        "findings: blank line after `(`, comments without a printer slot, width/newline-driven re-layout), so the "
-        "fixed-point clause of C20 does not hold for the current code; what the check enforces there is the weaker "
-        "statement that a second pass keeps the token stream, parses, does not panic and settles within 4 passes. "
+        "and printers never panic. Since round 4 the observation HOLDS on every generated program: the layout defects "
+        "recorded earlier (blank line after `(`, comments without a printer slot, width/newline-driven re-layout) and "
+        "the four families the thorough tier had found (one-line group around a forced line break, break taken in an "
+        "earlier group, dangling `)`, expanded argument list joined again) were repaired by 8 fix: commits in the "
+        "formatter; the layout classifiers are gone, so the check enforces the fixed-point clause as stated: ANY "
+        "difference between the first and the second pass, for any indent setting, is a VIOLATION. "
         "(c) ROUND 2 — the rowan parser's event protocol and tree builder (event.rs Sink::finish incl. the "
         "forward_parent / wrapper walks, skip_whitespace, token, text_offset, error_starts_at; rowan's GreenNodeBuilder; "
         "marker.rs start/complete_raw/forget/precede/wrap_raw) are modelled statement by statement "
@@ -31,7 +33,8 @@ CFG = {
         "wrap(.., previous_pos) yield well-formed lists the sink consumes completely), "
         "forget_after_precede_reaches_unreachable (an API hazard the drop bomb does not exclude). "
         "same_tokens_check_sound / same_tokens_mod_comma_sound: what the layout classifiers mean by `same tokens` "
-        "(equal non-trivia lexeme sequences, optionally up to a `,` before a closer) and that the driver's check decides it."
+        "(equal non-trivia lexeme sequences, optionally up to a `,` before a closer) and that the driver's check decides it "
+        "(no classifier is left that reads the verdict; it is kept as information in the replay of a failing fixed-point case)."
     ),
     "level_note": (
         "Trusted: Lean kernel; the statement-by-statement translator extract/ex_c20.py (expression language: let, "
@@ -54,7 +57,7 @@ CFG = {
     "repo_bins": ["jrsonnet-fmt"],
     "timeout": 1500,
     "assumptions": [
-        "layout idempotence (format∘format = format) is a hypothesis of test_accepts_fixpoint/produce_then_test_accepts, not a theorem; it is observed on generated valid programs × indent {tabs,2,4} and is known to fail in the listed c20_second_pass_* ways",
+        "layout idempotence (format∘format = format) is a hypothesis of test_accepts_fixpoint/produce_then_test_accepts, not a theorem; it is observed on generated valid programs × indent {tabs,2,4} (typed programs in three whitespace/comment styles, plus the `stress` stream: one-line / sparse-line-break / commented layouts behind prefixes of random width) and holds on all of them since the round-4 repairs",
         "the sink theorems take the event list as given: that Parser::parse emits one Token per non-trivia kind and opens the root first is checked per input (wfb), not proved for the 900 lines of grammar functions",
         "crash-freedom of lexer, rowan parser, the event-side panic sites of Sink::finish, the printers and dprint-core is observed (random byte strings, token soup over the whole token vocabulary, mutated and truncated valid programs), not proved",
         "error ranges handed to the diagnostic model are the ones the real parser reported; that they satisfy start <= end <= len is not needed (format_meets_spec holds for arbitrary ranges)",
